@@ -27,7 +27,7 @@ CHECKS["C07"] = ("model_checking",
 
 CHECKS["C19"] = ("model_checking",
     "explicit-state BFS over operation histories on a pre-populated store opened read-only (6 ways) with file-system audit + tree digest after every transition; exhaustive sequences for null storage / null runner",
-    "Every history to the stated depth of storage-level and function-level operations against a populated store reopened read-only by argument, storage config, cluster config, with/without cache, on the memory backend, on a store whose data object for one call was lost, or whose memento link for one call was left empty, before it was opened read-only, and from configuration objects that had been used before: after each transition no mutating audit event under the roots, the tree digest equals the initial one, reads answer as the model, memoize is skipped, forget/metadata writes are rejected. Null storage and null runner: every operation sequence to depth 3 with body-execution counts, incl. calls of the refused function from inside a running function of another cluster or of a force_local parent.",
+    "Every history to the stated depth of storage-level and function-level operations against a populated store reopened read-only by argument, storage config, cluster config, with/without cache, on the memory backend, on a store whose data object for one call was lost, or whose memento link for one call was left empty or whose memento document was cut short, before it was opened read-only, with the flag given by argument over a config saying readonly false and the environment then dumped and rebuilt, and from configuration objects that had been used before: after each transition no mutating audit event under the roots, the tree digest equals the initial one, reads answer as the model, memoize is skipped, forget/metadata writes are rejected. Null storage and null runner: every operation sequence to depth 3 with body-execution counts, incl. calls of the refused function from inside a running function of another cluster or of a force_local parent.",
     "Audit coverage is what CPython's audit events report (open, mkdir, remove, rename, rmdir, rmtree, truncate, link, chmod, utime); the digest catches anything else that changes file contents or names.",
     "DESIGN.md §3 C19")
 
@@ -57,13 +57,13 @@ CHECKS["C03"] = ("model_checking",
 
 CHECKS["C14"] = ("model_checking",
     "exhaustive enumeration of reference digraphs x kind assignments x reference forms, each program imported in a fresh process; oracle = graph reachability; plus stateless exploration of all schedules (preemption-bounded) of two threads under the controlled scheduler",
-    "Every digraph without self loops over N<=3 nodes (thorough: N=4 up to relabelling) with every assignment of kinds {memento auto, memento explicit, plain} and reference forms bare / module.attr / alias / decorator wrapper / inside a comprehension / inside a lambda / through functools.partial / module.attr assigned to a same-named local (all form assignments for N=2, covering rotations above) is rendered as a real module (graphs with 2-3 nodes additionally with the nodes spread over a module, the package __init__.py and a sibling module); for every memento node the reported transitive and direct dependencies and the dependency-graph links are compared with reachability, and every hidden dynamic call and every argument-passed call u=>v, directly and one real static call deeper (u->w=>v, including callees already on the call stack), through plain invocation and every modifier clone, must be refused exactly when v is outside the closure of the calling memento function. A name re-pointed between two memento functions in the running process (4 kind pairs): closure and run-time check before / after / back. Concurrent part: every schedule (1 preemption; thorough 2) of a thread inside an exempt or nested caller against a thread making a hidden or an ordinary top-level call.",
+    "Every digraph without self loops over N<=3 nodes (thorough: N=4 up to relabelling) with every assignment of kinds {memento auto, memento explicit, plain} and reference forms bare / module.attr / alias / decorator wrapper / inside a comprehension / inside a lambda / through functools.partial / module.attr assigned to a same-named local / inside the arguments of a call whose result is dereferenced (all form assignments for N=2, covering rotations above) is rendered as a real module (graphs with 2-3 nodes additionally with the nodes spread over a module, the package __init__.py and a sibling module); for every memento node the reported transitive and direct dependencies and the dependency-graph links are compared with reachability, and every hidden dynamic call and every argument-passed call u=>v, directly and one real static call deeper (u->w=>v, including callees already on the call stack), through plain invocation and every modifier clone, must be refused exactly when v is outside the closure of the calling memento function. A name re-pointed between two memento functions in the running process (4 kind pairs): closure and run-time check before / after / back; a function on a reference cycle re-defined in the running process so that it names another function. Concurrent part: every schedule (1 preemption; thorough 2) of a thread inside an exempt or nested caller against a thread making a hidden or an ordinary top-level call.",
     "A function is never its own dependency (self entries and self links excluded); explicit-version callers are exempt from enforcement as documented; graphs beyond 4 nodes are not enumerated.",
     "DESIGN.md §3 C14")
 
 CHECKS["C13"] = ("model_checking",
     "explicit-state BFS over in-process event histories on a live module; oracle = versions computed by a fresh process for the program text the history denotes",
-    "Every sequence up to depth 3 (quick) / 4 (thorough) over 21 events - redefine f / g / h, redefine h with only a positional or keyword-only default changed, redefine a function that refers to itself (r) or lies on a reference cycle (p <-> q), define a helper that takes the name of a builtin the function was using, rebind G and variables reachable only through a helper or only through a memento dependency, mutate a list in place, define a late symbol as helper or as variable, define a missing attribute, turn g into a plain function and back, rebind the head of a dotted name, create a modifier clone / an unregistered wrapper and query it, query f / g - is replayed in a fresh process on a live generated module; after every transition every version asked (f, g, clones and wrappers of the current code) (f, g, r, p, q) must equal what a fresh interpreter computes for the resulting program text. One history is kept per canonical (program text, version-cache entries, generation currency, hash-rule digests) state.",
+    "Every sequence up to depth 3 (quick) / 4 (thorough) over 21 events - redefine f / g / h, redefine h with only a positional or keyword-only default changed, redefine a function that refers to itself (r) or lies on a reference cycle (p <-> q), define a helper that takes the name of a builtin the function was using, re-bind the module name of a declared dependency, rebind G and variables reachable only through a helper or only through a memento dependency, mutate a list in place, define a late symbol as helper or as variable, define a missing attribute, turn g into a plain function and back, rebind the head of a dotted name, create a modifier clone / an unregistered wrapper and query it, query f / g - is replayed in a fresh process on a live generated module; after every transition every version asked (f, g, clones and wrappers of the current code) (f, g, r, p, q) must equal what a fresh interpreter computes for the resulting program text. One history is kept per canonical (program text, version-cache entries, generation currency, hash-rule digests) state.",
     "Re-definitions are compiled with the module's import header (CPython emits different byte code for sys.audit depending on whether import sys is in the same compilation unit); clones/wrappers holding superseded code are not queried; locked clusters are exempt by the statement.",
     "DESIGN.md §3 C13")
 
@@ -81,13 +81,13 @@ CHECKS["C11"] = ("model_checking",
 
 CHECKS["C12"] = ("model_checking",
     "exhaustive enumeration of name/version strings (pure parse round trip and real store round trip) and of evolution histories of a caller/callee pair, cross-process and in-process",
-    "A: every version string over {a,1,.,_,-,+,=,:,#,@} up to length 3 (quick) / 4 (thorough) x 4 cluster names (incl. one with ':') x 2 modules x 2 function names must parse back into exactly its parts. B: a sub-alphabet of versions (all single characters, all two-character strings starting with ':' '#' '1', more in thorough) is used as a real explicit version in the default and in a named cluster (package and cluster names starting with 'm') on memory and filesystem backends: body once, hit, memento(), list_mementos(), list_memoized_functions(). C: every step sequence of length <= 2 over {edit, bump, remove, rename, recluster, make plain, restore} of the callee (auto, explicit, or explicit with the empty version; also living in a second module that later cannot be imported any more) with the caller's version pinned, in the default cluster, a named cluster and a named cluster whose name is a prefix of the module name, with the callee called or handed to a middle function as an argument, delivered cross-process and in one process: the caller is served, no metadata read raises, references to vanished versions are external, the names in the caller's stored record do not change, and every function listed before a step is still listed under the same name with at least as many mementos.",
+    "A: every version string over {a,1,.,_,-,+,=,:,#,@} up to length 3 (quick) / 4 (thorough) x 4 cluster names (incl. one with ':') x 2 modules x 2 function names must parse back into exactly its parts. B: a sub-alphabet of versions (all single characters, all two-character strings starting with ':' '#' '1', more in thorough) is used as a real explicit version in the default and in a named cluster (package and cluster names starting with 'm') on memory and filesystem backends: body once, hit, memento(), list_mementos(), list_memoized_functions(). C: every step sequence of length <= 2 over {edit, bump, remove, rename, recluster, make plain, restore} of the callee (auto, explicit, explicit with the empty version or with a version containing '::' ':' '#'; called directly, through a positional partial, or handed to a middle function as an argument; also living in a second module that later cannot be imported any more) with the caller's version pinned, in the default cluster, a named cluster and a named cluster whose name is a prefix of the module name, with the callee called or handed to a middle function as an argument, delivered cross-process and in one process: the caller is served, no metadata read raises, references to vanished versions are external and their stubs (and force_local clones of them) still list the stored entries, the names and arguments in the caller's stored record do not change, and every function listed before a step is still listed under the same name with at least as many mementos.",
     "Cluster names do not contain '::' or '#'; module/function names are dotted identifiers; a callee that only moved to another cluster is not counted as vanished (and listing monotonicity is not demanded after such a move).",
     "DESIGN.md §3 C12")
 
 CHECKS["C15"] = ("model_checking",
     "bounded-exhaustive enumeration of batches x pre-memoized subsets (cache-resident or disk-only) x options x backends on the real runner; differential oracle = twin store driven by individual calls",
-    "Every batch of length 0..3 (quick) / 0..4 (thorough) over {0,1,2, failing, not-to-be-memoized failing} with duplicates, for every subset of its memoizable elements memoized beforehand (on the cached backend each one either resident in the cache or only on disk after reopening), with raise_first_exception true/false, with no / positional / keyword partial prefix, through call_batch and map_over_range, on memory, filesystem and filesystem+cache backends, is compared slot by slot (values, exception class and message, which exception is raised), by body-run counts per element, and by the final store contents with element-wise evaluation on a twin store. Batches of 2-3 look-alike values (1, 1.0, True, 0, 0.0, False) through map_over_range and call_batch: each element runs its own body once and is memoized on its own. Long batches (63..130 elements, thorough to 1025, the last ten memoized) and batches issued from inside a running function compared with element-wise calls from a twin function (values, the parent's record, store; with and without context arguments).",
+    "Every batch of length 0..3 (quick) / 0..4 (thorough) over {0,1,2, failing, not-to-be-memoized failing} with duplicates, for every subset of its memoizable elements memoized beforehand (on the cached backend each one either resident in the cache or only on disk after reopening), with raise_first_exception true/false, with no / positional / keyword partial prefix or under context arguments, through call_batch and map_over_range, on memory, filesystem and filesystem+cache backends, is compared slot by slot (values, exception class and message, which exception is raised), by body-run counts per element, and by the final store contents with element-wise evaluation on a twin store. Batches of 2-3 look-alike values (1, 1.0, True, 0, 0.0, False) through map_over_range and call_batch: each element runs its own body once and is memoized on its own. Long batches (63..130 elements, thorough to 1025, the last ten memoized) and batches issued from inside a running function compared with element-wise calls from a twin function (values, the parent's record, store; with and without context arguments).",
     "Element alphabet of 5; one function of two parameters; the local runner.",
     "DESIGN.md §3 C15")
 
@@ -99,7 +99,7 @@ CHECKS["C10"] = ("model_checking",
 
 CHECKS["C16"] = ("model_checking",
     "bounded-exhaustive enumeration of call trees x per-edge context overrides x ordered pairs of root contexts run on one store x backends; oracle = reference propagation model; plus stateless exploration of all schedules (preemption-bounded) of two threads under the controlled scheduler",
-    "For the chain root->mid->leaf (all 9 assignments of {inherit, override with {}, override with {k:3}} to its edges) and the diamond root->{mid1,mid2}->leaf (27 quick / 81 thorough assignments), every ordered pair of root contexts from {none, {}, {k:1}, {k:2}, {k:1, j:function reference}} is run successively on one store (the root also invoked with force_local before / after the context arguments and through call_batch) (so each sub-call is met un-memoized and memoized under equal and under different effective contexts): returned values, which bodies run, that no body receives a context argument as parameter, and the context recorded in each call's memento must follow the model (own override replaces entirely, else the caller's). With further calls prevented at the root or at an inner call, the nested memento call must fail with RuntimeError and never run, whether or not its result is already memoized. Concurrent part: every schedule (1 preemption; thorough 2) of a chain under context arguments in one thread against calls without them in another; each call must be stored under exactly its own context arguments.",
+    "For the chain root->mid->leaf (all 9 assignments of {inherit, override with {}, override with {k:3}} to its edges) and the diamond root->{mid1,mid2}->leaf (27 quick / 81 thorough assignments), every ordered pair of root contexts from {none, {}, {k:1}, {k:2}, {k:1, j:function reference}} is run successively on one store (the root also invoked with force_local before / after the context arguments and through call_batch) (so each sub-call is met un-memoized and memoized under equal and under different effective contexts): returned values, which bodies run, that no body receives a context argument as parameter, and the context recorded in each call's memento must follow the model (own override replaces entirely, else the caller's). With further calls prevented at the root or at an inner call, the nested memento call must fail with RuntimeError and never run, whether or not its result is already memoized; after a call under context arguments / with calls prevented that failed because the store raised at its k-th look-up (k=1..3), ordinary calls are unaffected. Concurrent part: every schedule (1 preemption; thorough 2) of a chain under context arguments in one thread against calls without them in another; each call must be stored under exactly its own context arguments.",
     "Two tree shapes; contexts over two keys; local runner.",
     "DESIGN.md §3 C16")
 
@@ -110,13 +110,13 @@ CHECKS["C02"] = ("model_checking",
     "DESIGN.md §3 C02")
 CHECKS["C17"] = ("model_checking",
     "bounded-exhaustive enumeration of partition merge chains x parent provenance x staging kinds x backends on the real codec/storage; oracle = dictionary overlay; plus stateless exploration of all schedules (preemption-bounded) of two threads under the controlled scheduler",
-    "Chains of length 0..2 (quick) / 0..3 (thorough) of memento functions each returning a partition that declares the previous one as merge parent: own key sets per level from 5 subsets of {a,b,c} (values int / str / None / list / DataFrame depending on key and level), parent obtained by computing it in the nested call, by reading it back from disk after reopening, from the memory cache, or built in memory and never serialized (lowest levels; values must be right on every call whether or not the library stores the child), in-memory (also over a defaultdict) and on-disk staging in all-same and alternating patterns, chains whose levels are all stored under one shared key override, on filesystem, filesystem+cache and memory backends. The object returned by the first call, the object read back through a fresh backend, and every lower level of the chain afterwards must equal the overlay (own keys win, parent-only keys remain); the second call runs no body; get(k) of a read-back partition opens at most one data object. A function extending the partition returned by a memoized call (replace one entry, add one). Concurrent part: two threads memoizing partition results under every schedule (1 preemption; thorough 2), then everything read back through a fresh backend.",
+    "Chains of length 0..2 (quick) / 0..3 (thorough) of memento functions each returning a partition that declares the previous one as merge parent: own key sets per level from 5 subsets of {a,b,c} (values int / str / None / list / DataFrame / a nested partition depending on key and level), parent obtained by computing it in the nested call, by reading it back from disk after reopening, from the memory cache, or built in memory and never serialized (lowest levels; values must be right on every call whether or not the library stores the child), in-memory (also over a defaultdict) and on-disk staging in all-same and alternating patterns, chains whose levels are all stored under one shared key override, on filesystem, filesystem+cache and memory backends. The object returned by the first call, the object read back through a fresh backend, and every lower level of the chain afterwards must equal the overlay (own keys win, parent-only keys remain); the second call runs no body; get(k) of a read-back partition opens at most one data object. A function extending the partition returned by a memoized call (replace one entry, add one), and one handing it on unchanged (inner call computed / from the cache / from the store). Concurrent part: two threads memoizing partition results under every schedule (1 preemption; thorough 2), then everything read back through a fresh backend.",
     "Key alphabet of three; merge parents are set through the _merge_parent attribute as the library's own tests do.",
     "DESIGN.md §3 C17")
 
 CHECKS["C18"] = ("model_checking",
     "exhaustive enumeration of the option matrix x supply forms x overrides x repository orders (incl. prepend/append after a first resolution); differential oracle = behavioural probes of the constructor-built twin",
-    "All 90 combinations of storage type {filesystem, memory, null} x metadata_path x memory_cache_mb x readonly {absent, false, true} x runner {absent, local, null}, each supplied as inline dict (also one that was used to build an environment before), as JSON files (environment -> repository -> cluster) and as a YAML repository file with a template parameter, are compared with the cluster built from constructor arguments through behavioural probes (where data and mementos land, whether a repeated read opens files, whether memoize / forget / metadata writes are accepted, whether calls run); each environment is then dumped with to_dict() and rebuilt: same probes, and a result written through the original must be served through the rebuilt one. Nine explicit-argument overrides (incl. putting a separated metadata path back under the data path and switching a configured cache off) must win over the configuration, also after the overridden environment is dumped and rebuilt. Repository lists of length 1..3 over all cluster-name subsets in every order (clusters registered under their own name or under a key that differs from their name field), also with a prepend or append of a new repository or a prepend of one already listed after a first resolution, must resolve each name to the first repository defining it (identity, where the call stores, and after dump/rebuild).",
+    "All 90 combinations of storage type {filesystem, memory, null} x metadata_path x memory_cache_mb x readonly {absent, false, true} x runner {absent, local, null}, each supplied as inline dict (also one that was used to build an environment before), as JSON files (environment -> repository -> cluster) and as a YAML repository file with a template parameter, are compared with the cluster built from constructor arguments through behavioural probes (where data and mementos land, whether a repeated read opens files, whether memoize / forget / metadata writes are accepted, whether calls run); each environment is then dumped with to_dict() and rebuilt: same probes, and a result written through the original must be served through the rebuilt one. Nine explicit-argument overrides (incl. putting a separated metadata path back under the data path and switching a configured cache off) must win over the configuration, also after the overridden environment is dumped and rebuilt; an explicit clusters= argument of a repository replaces the clusters its config object names; a cluster changed after a first dump shows the change in the next dump. Repository lists of length 1..3 over all cluster-name subsets in every order (clusters registered under their own name or under a key that differs from their name field), also with a prepend or append of a new repository or a prepend of one already listed after a first resolution, must resolve each name to the first repository defining it (identity, where the call stores, and after dump/rebuild).",
     "Options documented for the shipped backends only; paths in scratch space.",
     "DESIGN.md §3 C18")
 
